@@ -412,13 +412,31 @@ GenCfgDust(n) == Bind({
    plan |-> [on |-> TRUE, gl |-> FALSE, geo |-> g, max |-> 2, mode |-> 0, sel |-> {}, reqs |-> <<>>],
    sub |-> NoPolicy, admin |-> NoPolicy]
   : g \in {OneOf(<< {1}, {4}, {1, 4} >>)}, k \in {IF n % 4 = 1 THEN 3 ELSE RandomElement({3, 4})}})
+\* bias for C02 (isRequirementSupported): two MANDATORY requirements on different collections of one interface, both with an
+\* extension - (ifc, no add-on, <<f>>) and (ifc, add-on a, <<e>>) - in one policy or split between plan and admin policy.
+\* Providers: kind 9 (a,f: base with f, add-on without e) and kind 3 (a,e: add-on with e, base without f) are the mirror-image
+\* ineligible ones, kinds 11 / 15 satisfy both, the rest satisfy neither; fewer eligible providers than slots, so whatever
+\* passes the filter shows up in the list.
+GenCfgTwoColl(n) == Bind({
+  LET r1 == [ifc |-> ifc, ad |-> "", ext |-> <<"f">>, mx |-> FALSE]
+      r2 == [ifc |-> ifc, ad |-> "a", ext |-> <<"e">>, mx |-> FALSE] IN
+  [id |-> n,
+   prov |-> [i \in 1..NP |-> [stake |-> RandomElement(Stakes), geo |-> g, st |-> "ok",
+                               kx |-> IF ifc = "x" THEN ks[i] ELSE RandomElement(Kinds),
+                               ky |-> IF ifc = "y" THEN ks[i] ELSE RandomElement(Kinds)]],
+   plan |-> [on |-> TRUE, gl |-> FALSE, geo |-> g, max |-> RandomElement(4..MaxSlots), mode |-> 0, sel |-> {},
+             reqs |-> IF split THEN <<r1>> ELSE IF flip THEN <<r1, r2>> ELSE <<r2, r1>>],
+   sub |-> NoPolicy,
+   admin |-> IF split THEN [on |-> TRUE, gl |-> FALSE, geo |-> g, max |-> MaxSlots, mode |-> 0, sel |-> {}, reqs |-> <<r2>>] ELSE NoPolicy]
+  : g \in {RandomElement(GeoSets)}, ifc \in {RandomElement({"x", "y"})}, split \in {RandomElement({TRUE, FALSE})}, flip \in {RandomElement({TRUE, FALSE})},
+    ks \in {<<9, 3, OneOf(<<11, 15, 0>>), OneOf(<<11, 2, 8, 1>>), OneOf(<<0, 9, 3, 10>>)>>}})
 JsonPol(p) == [on |-> p.on, geo |-> SortedInts(p.geo), max |-> p.max, mode |-> p.mode, sel |-> SortedInts(p.sel), reqs |-> p.reqs]
 JsonCfg(c) == [id |-> c.id, prov |-> [i \in 1..Len(c.prov) |-> [c.prov[i] EXCEPT !.geo = SortedInts(@)]],
                plan |-> JsonPol(c.plan), sub |-> JsonPol(c.sub), admin |-> JsonPol(c.admin)]
 GenInit == /\ \E n \in 1..GenN : \E c \in {IF Mode = "gendust" THEN GenCfgDust(n)
                                       ELSE IF Mode = "genunion" THEN (IF n % 2 = 0 THEN GenCfgUnion(n) ELSE GenCfgMixKeys(n))
                                       ELSE IF Mode = "genplain" THEN (IF n % 4 = 0 THEN GenCfgMixKeys(n) ELSE GenCfgPlain(n))
-                                      ELSE IF n % 4 = 1 THEN GenCfgMixKeys(n) ELSE GenCfg(n)} : cfg = c
+                                      ELSE IF n % 4 = 1 THEN GenCfgMixKeys(n) ELSE IF n % 4 = 3 THEN GenCfgTwoColl(n) ELSE GenCfg(n)} : cfg = c
            /\ tab = <<>>
            /\ Blank
 GenNext == UNCHANGED vars
